@@ -111,7 +111,7 @@ func describeParam(t reflect.Type) string {
 
 func isPool(t reflect.Type) bool {
 	id, ok := typeIDs[t]
-	return ok && id < 100
+	return ok && id < 2000
 }
 
 func labelStr(v am.Value) string {
